@@ -32,11 +32,32 @@ threads perform arbitrary access sequences consistent with the classification, i
 * `C11_no_cross_instance_effect` — what an instance reads from its own and from read-only shared objects (ammo,
                          scenario definition, templates, metadata, variables) is what it would read running alone.
 
+* `C11_closures_confined` — in the current source (regenerated closure table: every function literal of components/,
+                         core/, lib/) no function literal that assigns its captured variables — nor a wrapper holding
+                         one — is stored in a field, map, sync.Map, pool, channel or package variable, except the one
+                         reviewed pair that stays on the provider goroutine: closure objects with state live and die
+                         with one call. `C11_drf_fresh_closures`: threads whose closure cells are their own are data-race
+                         free under every schedule.
+* `C11_fresh_chain_isolated` — the variable a var/header mapping extracts from a response is a function of that response:
+                         independent of every response processed before, by whichever instance.
+* `C11_substr_in_bounds` — the regenerated body of the `substr` closure yields bounds `0 ≤ a ≤ b ≤ len`: the slice it
+                         returns cannot panic (`Bridge/C11Locks.lean` ties the regenerated body to the model).
+* `C11_cached_closure_statement / _counterexample / _partial` — if ONE parsed chain is kept and reused (a cache in the
+                         shared postprocessor), isolation fails: `substr(-4)` extracts "" from a 6-character header once
+                         a 10-character one was seen; it holds for chains without `substr`; the closure row of such a
+                         cache is rejected and two instances calling the cached closure race on its captured bounds.
+* `C11_handover_sites_ok`, `C11_drf_handover_sites` — in the current source no function touches a sample or an ammo
+                         after handing it on (regenerated hand-over words, one per path), hence any number of goroutines
+                         running those functions on one object under every schedule are data-race free.
+                         `C11_release_first_counterexample`: an aggregator that releases the sample before formatting it.
+
 The classification itself is checked against the real code by the correspondence driver (aliasing graph, write
 set of a real `Shoot`, race-detector sweep); see `Drv/C11.lean`.
 -/
 import Pandora.Proofs.C11Exec
 import Pandora.Proofs.C11Own
+import Pandora.Proofs.C11Closure
+import Pandora.Bridge.C11Locks
 import Pandora.Gen.Locks
 import Pandora.Spec.C11
 
@@ -304,6 +325,146 @@ theorem C11_unlocked_fastpath_counterexample :
     subst ha; subst hb'
     simp [Ev.thread] at hab
   · have : p = 1 := by omega
+    subst this
+    simp at hrel
+
+/-! ### function literals with state; the var/header modifiers -/
+
+/-- **C11_closures_confined**: every function literal of the current source that assigns a captured variable outside a
+mutex section of its own (its closure object is mutable state), and every literal that may hold one, is stored nowhere —
+no struct field, map or slice element, sync.Map / sync.Pool / atomic.Value, channel or package variable — with the one
+reviewed exception `Spec.C11.confinedStores` (the progress callback of the decode provider's reader: created, stored and
+called on the provider goroutine). Such a closure is created, called and dropped by one goroutine. -/
+theorem C11_closures_confined :
+    c11ClosuresOk Pandora.Spec.C11.confinedStores Pandora.Gen.Locks.closures = true := by decide
+
+/-- non-vacuity: the table has closures with state (the `substr` modifier and its wrapper among them) -/
+example : (Pandora.Gen.Locks.closures.filter C11Closure.stateful).length ≥ 2 := by decide
+
+/-- **C11_drf_fresh_closures**: the captured variables of a closure that is not stored anywhere are objects of the
+goroutine that made it (`own o`): any number of threads, each accessing only cells of its own in any way, under every
+schedule, are data-race free. -/
+theorem C11_drf_fresh_closures (own : Nat → Nat) (progs : List (List Op))
+    (hown : ∀ (t : Nat) (ops : List Op), progs[t]? = some ops → ∀ op ∈ ops, own op.obj = t) (sched : List Nat) :
+    DRF (exec (initCfg (fun o => Class.loc (own o)) progs) sched) :=
+  C11_drf_programs _ progs (fun t ops h op hop => by simp only [opOk]; exact (hown t ops h op hop).symm) sched
+
+/-- non-vacuity: two instances normalising the bounds of their own `substr` closures (cells 0,1 of instance 0; 2,3 of
+instance 1) at the same time -/
+example : exec (initCfg (fun o => Class.loc (o / 2)) [[⟨0, false, 0⟩, ⟨0, true, 6⟩, ⟨1, true, 10⟩], [⟨2, false, 0⟩, ⟨2, true, 2⟩, ⟨3, true, 6⟩]])
+      [0, 1, 1, 0, 0, 1]
+    = [.acc 0 0 false 0, .acc 1 2 false 0, .acc 1 2 true 2, .acc 0 0 true 6, .acc 0 1 true 10, .acc 1 3 true 6] := by decide
+
+/-- **C11_fresh_chain_isolated**: with a freshly parsed chain per response (the code as it is) the value extracted from
+a response does not depend on the responses processed before it — by this or by any other instance. -/
+theorem C11_fresh_chain_isolated (ms : List Modifier) (pre₁ pre₂ : List (List Char)) (v : List Char) :
+    (extractFresh ms (pre₁ ++ [v])).getLast? = (extractFresh ms (pre₂ ++ [v])).getLast? := by
+  simp [extractFresh]
+
+/-- non-vacuity: `X-Tok|substr(-4)` after a 10-character header and after nothing -/
+example : (extractFresh [.substr (-4) 0] ["Abcdefghij".toList, "Xyzuvw".toList]).getLast? = some (some "zuvw".toList) ∧
+    (extractFresh [.substr (-4) 0] ["Xyzuvw".toList]).getLast? = some (some "zuvw".toList) := by decide
+
+/-- **C11_substr_in_bounds**: the bounds computed by the regenerated body of the `substr` closure are a valid slice of a
+string of length `l` — `in[start:end]` never panics, whatever the arguments of `substr(…)`. -/
+theorem C11_substr_in_bounds (s e l : Int) (hl : 0 ≤ l) :
+    0 ≤ (Pandora.Gen.Locks.substrBody s e l).1 ∧
+    (Pandora.Gen.Locks.substrBody s e l).1 ≤ (Pandora.Gen.Locks.substrBody s e l).2 ∧
+    (Pandora.Gen.Locks.substrBody s e l).2 ≤ l := by
+  rw [Pandora.Bridge.C11Locks.substrBody_eq s e l hl]
+  exact Pandora.Bridge.C11Locks.substrNorm_in_bounds s e l hl
+
+example : Pandora.Gen.Locks.substrBody (-4) 0 6 = (2, 6) ∧ Pandora.Gen.Locks.substrBody (-20) 40 6 = (0, 6) ∧
+    Pandora.Gen.Locks.substrBody 5 2 6 = (2, 5) := by decide
+
+/-- isolation when ONE parsed chain is kept and reused for every response (a cache inside the shared postprocessor) -/
+def C11_cached_closure_statement : Prop :=
+  ∀ (ms : List Modifier) (pre₁ pre₂ : List (List Char)) (v : List Char),
+    (extractCached ms (pre₁ ++ [v])).getLast? = (extractCached ms (pre₂ ++ [v])).getLast?
+
+/-- **C11_cached_closure_counterexample** (seeded change: parsed mapping values cached in a sync.Map of the
+postprocessor): the `substr` closure overwrites its captured bounds with the ones normalised for the header it has just
+seen. `substr(-4)` becomes `[6:10]` after a 10-character header, and a later 6-character header — of any instance —
+yields "" instead of its last four characters; the closure row of such a cache is rejected by the table check; and two
+instances calling the cached closure write its captured `start` without any order between them. -/
+theorem C11_cached_closure_counterexample :
+    ¬ C11_cached_closure_statement ∧
+    c11ClosureOk Pandora.Spec.C11.confinedStores
+      ⟨"components/providers/scenario/http/postprocessor:substr.func1", ["end", "start"], [],
+       ["components/providers/scenario/http/postprocessor.getParsedValue: p.parsed.Store(…&parsedHeaderValue……)"]⟩ = false ∧
+    ¬ DRF [.acc 0 0 true 6, .acc 1 0 true 2] := by
+  refine ⟨?_, by decide, ?_⟩
+  · intro h
+    have := h [.substr (-4) 0] [] ["Abcdefghij".toList] "Xyzuvw".toList
+    revert this
+    decide
+  · intro h
+    exact not_hb_two 0 1 0 true true 6 2 (by decide) 0 1 (h 0 1 _ _ (by decide) rfl rfl (by simp [Conflict]))
+
+/-- **C11_cached_closure_partial**: chains made of `lower`, `upper` and `replace` only keep no state: reusing them
+changes nothing (which is why a cache passes every test that does not combine `substr` with headers of different
+lengths). -/
+theorem C11_cached_closure_partial (ms : List Modifier) (h : ms.all Pandora.Proofs.C11.Modifier.pure = true)
+    (vals : List (List Char)) : extractCached ms vals = extractFresh ms vals :=
+  extractCached_pure ms h vals
+
+example : extractCached [.upper, .replace "B" "x"] ["Abcb".toList, "bB".toList] = [some "AxCx".toList, some "xx".toList] := by
+  decide
+
+/-! ### hand-over sites of the current source -/
+
+/-- **C11_handover_sites_ok**: every function of the current source that hands a sample or an ammo on directly (channel
+send, `Put`, `Release`, `Report`, `releaseSample`) does so at most once on every path and does not touch the object
+afterwards (regenerated words, judged by the ownership discipline `progOkB`). -/
+theorem C11_handover_sites_ok :
+    Pandora.Gen.Locks.handoverSites.all (fun p => Pandora.Spec.C11.siteWordOk p.2.2) = true := by decide
+
+example : Pandora.Gen.Locks.handoverSites.length ≥ 10 := by decide
+
+/-- **C11_drf_handover_sites**: any number of goroutines, each running a path of one of those functions on ONE object
+(taking it first: `Pool.Get`, channel receive, `Acquire`), under every schedule: data-race free. -/
+theorem C11_drf_handover_sites (progs : List (String × String × String))
+    (hin : ∀ p ∈ progs, p ∈ Pandora.Gen.Locks.handoverSites) (sched : List Nat) :
+    DRF (exec (initCfgO (fun _ => Class.sharedSync 0) (progs.map fun p => Pandora.Spec.C11.siteOps p.2.2)) sched) := by
+  apply C11_drf_handover_programs
+  intro t ops hget
+  simp only [List.getElem?_map] at hget
+  cases hp : progs[t]? with
+  | none => simp [hp] at hget
+  | some p =>
+    simp only [hp, Option.map_some, Option.some.injEq] at hget
+    subst hget
+    apply progOk_of_progOkB
+    have hmem := hin p (List.mem_of_getElem? hp)
+    have hok := List.all_eq_true.mp C11_handover_sites_ok p hmem
+    simp only [Pandora.Spec.C11.siteWordOk] at hok
+    rw [progOkB_thread _ t 0 _ _ (siteOps_noAcc p.2.2)]
+    exact hok
+
+/-- non-vacuity: the aggregator's `handle` (use, then release) and a gun's `shootStep` (use, then report) competing for
+one sample: whoever takes it first finishes with it before the other one starts -/
+example : exec (initCfgO (fun _ => Class.sharedSync 0) ([("handle", "s", "UG"), ("shootStep", "sample", "UG")].map
+      fun p => Pandora.Spec.C11.siteOps p.2.2)) [1, 0, 1, 0, 1, 0, 0, 0]
+    = [.acq 1 0, .acc 1 0 true 0, .rel 1 0, .acq 0 0, .acc 0 0 true 0, .rel 0 0] := by decide
+
+/-- **C11_release_first_counterexample** (an aggregator whose `handle` puts the sample back into the pool before
+formatting it; an instance loop that releases the ammo before shooting it): the word `GU` violates the discipline, and
+under the schedule 0,0,1,1,0 the next owner writes the object while the function still reads it. -/
+theorem C11_release_first_counterexample :
+    Pandora.Spec.C11.siteWordOk "GU" = false ∧
+    ¬ DRF (exec (initCfgO (fun _ => Class.sharedSync 0) [Pandora.Spec.C11.siteOps "GU", Pandora.Spec.C11.siteOps "UG"]) [0, 0, 1, 1, 0]) := by
+  refine ⟨by decide, ?_⟩
+  have htr : exec (initCfgO (fun _ => Class.sharedSync 0) [Pandora.Spec.C11.siteOps "GU", Pandora.Spec.C11.siteOps "UG"]) [0, 0, 1, 1, 0]
+      = [.acq 0 0, .rel 0 0, .acq 1 0, .acc 1 0 true 0, .acc 0 0 true 0] := by decide
+  rw [htr]
+  intro h
+  have hb := h 3 4 _ _ (by decide) rfl rfl (by simp [Conflict])
+  obtain ⟨_, hc⟩ := hb_cases _ _ _ hb
+  rcases hc with ⟨a, b, ha, hb', hab⟩ | ⟨p, q, t, t', l, hp, hpq, hq, hrel, _⟩
+  · simp at ha hb'
+    subst ha; subst hb'
+    simp [Ev.thread] at hab
+  · have : p = 3 := by omega
     subst this
     simp at hrel
 
